@@ -12,7 +12,7 @@ use serde_json::json;
 use snow::{
     params::{CipherChoice, DHChoice, HashChoice},
     resolvers::{CryptoResolver, DefaultResolver, RingResolver},
-    types::{Cipher, Dh, Hash},
+    types::Cipher,
 };
 use std::panic::{catch_unwind, AssertUnwindSafe};
 
@@ -153,7 +153,7 @@ fn aead_case(ctx: &Ctx, c: CipherAlg, ring: bool, obj: &mut Box<dyn Cipher>, key
         return;
     }
     // ... and rejects everything else: every single-bit flip, every truncation, wrong nonce / ad / key
-    let mut rej = |what: &str, obj: &mut Box<dyn Cipher>, n2: u64, ad2: &[u8], ct: &[u8]| {
+    let rej = |what: &str, obj: &mut Box<dyn Cipher>, n2: u64, ad2: &[u8], ct: &[u8]| {
         if ct.len() < 16 {
             return; // below a tag the trait's contract (ciphertext.len() >= TAGLEN) is the caller's
         }
